@@ -17,7 +17,7 @@ import numpy as np
 
 from harness.snap import snapshot
 
-SCRIPT_A = ["construct", "fit", "predict", "add_arm", "partial_fit", "warm_start", "predict_expectations", "predict"]
+SCRIPT_A = ["construct", "fit", "predict", "add_arm", "warm_start", "predict_expectations", "partial_fit", "predict"]
 SCRIPT_B = ["construct", "global_draw", "fit", "global_seed", "predict"]
 
 LPS = ["eg", "ucb1", "softmax", "pop", "ts", "random", "lin-ucb", "lin-ts", "lin-greedy", "default-eg", "default-ts"]
@@ -54,7 +54,7 @@ def data(lp, strings):
     c = [[v, v, float(rnd.randrange(3))] for v in col]
     q = [[0.0, 3.0, 1.0], [3.0, 0.0, 2.0], [1.0, 2.0, 0.0], [2.0, 2.0, 1.0]]
     extra = "k" if strings else 7
-    feats = {arms[0]: [3.0, 4.0], arms[1]: [3.0, 4.0], arms[2]: [4.0, 3.0], extra: [4.0, 3.0]}
+    feats = {arms[0]: [3.0, 4.0], arms[1]: [3.0, 4.0], arms[2]: [-4.0, 3.0], extra: [4.0, 3.0]}
     return arms, extra, d, r, c, q, feats
 
 
@@ -78,12 +78,15 @@ class Actor:
             self.out.append(("fitted", repr(snapshot(self.mab._imp, rng=True))))
         elif op == "partial_fit":
             sl = slice(12, 18)
-            dd = [extra if i == 0 else x for i, x in enumerate(d[sl])]
-            self.mab.partial_fit(dd, r[sl], c[sl]) if self.contextual else self.mab.partial_fit(dd, r[sl])
+            # four rows for the new arm: its tree has a real split, tied between the two identical columns
+            dd = [extra if i < 4 else x for i, x in enumerate(d[sl])]
+            rr = [0.0, 0.0, 1.0, 1.0] + r[sl][4:]
+            cc = [[float(i), float(i), 1.0] for i in range(4)] + c[sl][4:]
+            self.mab.partial_fit(dd, rr, cc) if self.contextual else self.mab.partial_fit(dd, rr)
         elif op == "add_arm":
             self.mab.add_arm(extra)
         elif op == "warm_start":
-            self.mab.warm_start({a: feats[a] for a in self.mab.arms}, 0.5)
+            self.mab.warm_start({a: feats[a] for a in self.mab.arms}, 1.0)
             self.out.append(("cold", list(self.mab.cold_arms)))
         elif op == "predict":
             self.out.append(("predict", self.mab.predict(q) if self.contextual else [self.mab.predict() for _ in range(3)]))
